@@ -4,12 +4,14 @@ package main
 // trusted events.
 
 import (
+	"crypto/ed25519"
 	"encoding/json"
 	"fmt"
 	"sort"
 	"strings"
 
 	gmsl "github.com/matrix-org/gomatrixserverlib"
+	"github.com/tidwall/gjson"
 )
 
 func init() { areas["redact"] = Area{Gen: genRedact, Exec: execRedact} }
@@ -34,6 +36,15 @@ func execRedact(op string, args []string) string {
 		return execRedactPDU(args[0], args[1])
 	case "pdu_props":
 		return execRedactPDUProps(args[0], args[1], string(unhx(args[2])), string(unhx(args[3])), unhx(args[4]))
+	case "pdu_check":
+		// everything but a failed predicate is the one outcome `ok` (the classes are counted by the generator)
+		im, _, _ := execRedactPDUCheck(args[0], args[1], args[2], args[3])
+		if strings.HasPrefix(im, "bad") {
+			return im
+		}
+		return "ok"
+	case "pdu_after":
+		return "ok"
 	}
 	return "bad-op"
 }
@@ -384,6 +395,7 @@ func genRedact(o *Out, tier string, r *Rng) {
 		}
 	}
 	genRedactPDU(o, tier, r)
+	genRedactPDUCheck(o, tier, r)
 }
 
 // redactShapeTag names the one input shape a known finding is about (computed from the text alone,
@@ -433,3 +445,171 @@ func sortedKeys(m map[string]interface{}) []string {
 }
 
 var _ = json.Marshal
+
+// ---- redact.pdu_check / redact.pdu_after: PDU.Redact() against RedactEventJSON of the JSON the event has at that moment ----
+//
+// C05 speaks about "redacting an event": whatever route the event took (trusted / untrusted constructor, with an `event_id`
+// member or without, after EventID(), Sign(), SetUnsigned()), Redact() must leave exactly RedactEventJSON(JSON()) in canonical
+// form, flagged redacted, same type / sender / room / state key, same ID in hashed formats (unless the trusted JSON itself
+// carries an `event_id` member, which those formats re-read: caller's contract), signatures that verified still verifying, and a
+// second Redact() changes nothing.  A panic is the documented answer for trusted JSON that Build / the untrusted constructor
+// would have refused; on an event the untrusted constructor accepted it is a violation.
+//
+// pdu_check <ver> <ctor t|w|u> <hex id>:<hex json> <prep: comma list of eid,sign,unsigned,json>
+//     -> ok | ok:panic-documented | err:construct | err:prep | bad:<vector>
+// pdu_after <ver> <hex json before Redact()> <hex json after | PANIC>   (implementation outcome: the constant ok; the driver
+//     recomputes the redaction of `before` with the model and compares)
+
+func redactPrep(v gmsl.IRoomVersion, ver, ctor, ev, prep string) (gmsl.PDU, string) {
+	id, js := splitEv(ev)
+	var p gmsl.PDU
+	var err error
+	switch ctor {
+	case "t":
+		p, err = v.NewEventFromTrustedJSON(js, false)
+	case "w":
+		p, err = v.NewEventFromTrustedJSONWithEventID(id, js, false)
+	case "u":
+		p, err = v.NewEventFromUntrustedJSON(js)
+	default:
+		return nil, "bad-op"
+	}
+	if err != nil || p == nil {
+		return nil, "err:construct"
+	}
+	sg := signers[1]
+	for _, step := range strings.Split(prep, ",") {
+		switch step {
+		case "", "-":
+		case "eid":
+			_ = safeStr(func() string { return p.EventID() })
+		case "json":
+			_ = p.JSON()
+		case "sign":
+			q := p
+			if r := Guard(func() string { q = p.Sign(sg.name, sg.kid, sg.sk); return "" }); r != "" {
+				return nil, "err:prep"
+			}
+			p = q
+		case "unsigned":
+			var q gmsl.PDU
+			var e2 error
+			if r := Guard(func() string { q, e2 = p.SetUnsigned(map[string]interface{}{"age": 7, "prev_content": map[string]interface{}{"body": "old"}}); return "" }); r != "" || e2 != nil || q == nil {
+				return nil, "err:prep"
+			}
+			p = q
+		default:
+			return nil, "bad-op"
+		}
+	}
+	return p, ""
+}
+
+func execRedactPDUCheck(ver, ctor, ev, prep string) (string, []byte, []byte) {
+	v, err := gmsl.GetRoomVersion(gmsl.RoomVersion(ver))
+	if err != nil {
+		return "err:version", nil, nil
+	}
+	p, why := redactPrep(v, ver, ctor, ev, prep)
+	if p == nil {
+		return why, nil, nil
+	}
+	sg := signers[1]
+	pub := sg.sk.Public().(ed25519.PublicKey)
+	before := append([]byte{}, p.JSON()...)
+	ids0 := strings.Join([]string{p.Type(), string(p.SenderID()), safeStr(func() string { r := p.RoomID(); return r.String() }), showOptStr(p.StateKey())}, "\x00")
+	eid0 := safeStr(func() string { return p.EventID() })
+	sig0 := verifyEventSig(v, before, sg.name, string(sg.kid), pub)
+	want, err := v.RedactEventJSON(before)
+	if err != nil {
+		return "err:redact", nil, nil
+	}
+	if want, err = gmsl.CanonicalJSON(want); err != nil {
+		return "err:redact", nil, nil
+	}
+	if r := Guard(func() string { p.Redact(); return "" }); r != "" {
+		if ctor == "u" {
+			return "bad:panic-on-accepted-event", before, []byte("PANIC")
+		}
+		return "ok:panic-documented", before, []byte("PANIC")
+	}
+	after := append([]byte{}, p.JSON()...)
+	ids1 := strings.Join([]string{p.Type(), string(p.SenderID()), safeStr(func() string { r := p.RoomID(); return r.String() }), showOptStr(p.StateKey())}, "\x00")
+	eid1 := safeStr(func() string { return p.EventID() })
+	sig1 := verifyEventSig(v, after, sg.name, string(sg.kid), pub)
+	red1 := p.Redacted()
+	idem := true
+	if r := Guard(func() string { p.Redact(); return "" }); r != "" || string(p.JSON()) != string(after) || !p.Redacted() {
+		idem = false
+	}
+	// the ID: hashed formats only; a trusted event whose JSON carries an exact `event_id` member re-reads it (caller's contract)
+	eidOK := true
+	if v.EventIDFormat() != gmsl.EventIDFormatV1 && !gjson.GetBytes(before, "event_id").Exists() {
+		eidOK = eid0 == eid1
+	}
+	vec := "json=" + bit01(string(after) == string(want)) + "|red=" + bit01(red1) + "|ids=" + bit01(ids0 == ids1) + "|eid=" + bit01(eidOK) +
+		"|sig=" + bit01(!sig0 || sig1) + "|idem=" + bit01(idem)
+	if strings.Contains(vec, "=0") {
+		return "bad:" + vec, before, after
+	}
+	return "ok", before, after
+}
+
+// genRedactPDUCheck: every constructor x preparation sequence on built and hand-made events
+func genRedactPDUCheck(o *Out, tier string, r *Rng) {
+	n := 2
+	if tier == "thorough" {
+		n = 40
+	}
+	preps := []string{"-", "eid", "sign", "unsigned", "eid,sign", "sign,unsigned", "eid,unsigned,sign", "json,sign,eid"}
+	emit := func(ver, ctor, ev, prep string) {
+		o.Do("pdu_check", ver, ctor, ev, prep)
+		im, before, after := execRedactPDUCheck(ver, ctor, ev, prep)
+		o.Count("pdu_check." + ctor + "." + strings.SplitN(im, "|", 2)[0])
+		if before != nil {
+			a := "PANIC"
+			if string(after) != "PANIC" {
+				a = hx(after)
+			}
+			o.Do("pdu_after", ver, hx(before), a)
+		}
+	}
+	for round := 0; round < n; round++ {
+		for _, ver := range allVersions {
+			if b := r.buildEvent(o, ver); b != nil {
+				ev := hx([]byte(b.pdu.EventID())) + ":" + hx(b.json)
+				emit(ver, Pick(r, []string{"t", "w", "u"}), ev, Pick(r, preps))
+				emit(ver, "u", ev, Pick(r, preps))
+			}
+			// hand-made trusted events: with / without an `event_id` member in every format, numbers the strict
+			// canonical form refuses in kept and in dropped positions
+			e := r.baseEvent(ver)
+			typ := Pick(r, evTypes)
+			e.put("type", jstr(typ))
+			e.put("content", r.evContent(typ, r.Chance(70)))
+			if !e.has("event_id") && r.Chance(50) {
+				e.put("event_id", jstr(Pick(r, []string{"$abc:hs1", "$" + r.id43()})))
+			}
+			switch r.Intn(8) {
+			case 0:
+				e.put("depth", jnum(Pick(r, []string{"1.5", "9007199254740992", "1e3", "-0"})))
+			case 1:
+				e.put("origin_server_ts", jnum(Pick(r, []string{"9007199254740993", "12.0"})))
+			case 2:
+				u := jobj()
+				u.put("age", jnum("1.25"))
+				e.put("unsigned", u)
+			case 3:
+				if typ == "m.room.power_levels" {
+					c := jobj()
+					c.put("users_default", jnum(Pick(r, []string{"0.5", "1e2", "9007199254740992"})))
+					c.put("zz_dropped", jnum("7"))
+					e.put("content", c)
+				}
+			}
+			t := r.RenderText(e, Style{})
+			ev := hx([]byte("$hand:hs1")) + ":" + hx(t)
+			emit(ver, Pick(r, []string{"t", "w"}), ev, Pick(r, preps))
+		}
+	}
+}
